@@ -36,6 +36,7 @@ ASSUMPTIONS = {
     "A-CTX": "contextlib.contextmanager / generator semantics: the code after `yield` runs exactly once on a normal exit; an exception of the with-body is raised at the `yield`, so only finally blocks and matching except handlers run; locals() at the first statement is self + the keyword parameters",
     "A-SHAPE": "the membership of a batch of N aggregated sets evaluated at the (1, r) array of sample points is an (N, r) array whose row i belongs to set i (the shape behaviour of Activated/Aggregated.membership is the subject of C02)",
     "A-FMT": "number formatting/parsing as uninterpreted functions: to_float(Op.str(x)) == rnd(x) with |rnd(x) - x| <= 10**-decimals / 2, rnd idempotent, Op.str(rnd(x)) == Op.str(x), NaN and +-inf survive, values with at most one decimal are representable at every decimals setting (1..9); int(str(i)) == i",
+    "A-REFLECT": "inspect.signature(Class.__init__) reports the parameters and defaults written in the source; vars(obj) is the map of the instance fields assigned by the constructors; eval of a printed constructor call binds positional arguments in order and keywords by name; float(repr(x)) == x (CPython)",
     "A-POW": "floating-point pow(values, 1.0/n) returns the true n-th root up to a relative error of 2**-50 (IEEE pow is accurate to < 1 ulp); int() truncates, round() returns a nearest integer; decided for n = 1..4 input variables (the property's domain) and 1 <= values <= 1e9",
     "A-HEAPQ": "heapq.heappush/heappop implement a min-priority queue on tuples",
     "A-PY": "attribute lookup follows the MRO read from the source; no monkey-patching/metaclasses/__getattr__ on verified classes",
